@@ -25,6 +25,32 @@ type gen struct {
 	hbState   bool
 	hbChanged int64
 	hbAny     bool
+	leader    int // the leader the clientSets knows for the cluster's shard (0: none)
+}
+
+// syncOp: one server-info sync: unreachable, no endpoint for the shard, the known leader again (most), or a new one
+func (g *gen) syncOp(n int) Op {
+	op := Op{Op: "sync", N: n, OtherLeader: g.n(3)}
+	g.now += rig.Pick(g.c.Rng, []int64{sec / 10, sec, 2 * sec, 2 * sec, 3 * sec})
+	op.Now = g.now
+	switch x := g.n(100); {
+	case x < 12:
+		op.Fail = true
+	case x < 22:
+	case x < 80 && g.leader > 0:
+		op.Leader = g.leader
+	default:
+		op.Leader = 1 + (g.leader+g.n(2))%3
+	}
+	if g.n(12) == 0 {
+		op.N = 0
+	}
+	if !op.Fail && op.Leader > 0 && op.Leader != g.leader {
+		// a changed leader is a success for setLeaderStatus
+		g.leader = op.Leader
+		g.hbState, g.hbChanged, g.hbAny = true, op.Now, true
+	}
+	return op
 }
 
 func (g *gen) n(k int) int { return g.c.Rng.Intn(k) }
@@ -224,6 +250,15 @@ func genScenario(c *rig.Ctx, i int) Case {
 	fresh := func(op Op) Op { g.rt += int64(1 + g.n(50)); op.RT = g.rt; return op }
 	var ops []Op
 	ready := func() {
+		if g.n(2) == 0 {
+			// everything is learnt from the server info: shard count and leader (a new leader is ready at once)
+			op := g.syncOp(cs.Shards)
+			op.Fail, op.N, op.Leader = false, cs.Shards, 1
+			g.leader = 1
+			g.hbState, g.hbChanged, g.hbAny = true, op.Now, true
+			ops = append(ops, op)
+			return
+		}
 		ops = append(ops, Op{Op: "shards", N: cs.Shards})
 		h := g.hb()
 		h.OK, h.Other = true, false
@@ -290,6 +325,8 @@ func genScenario(c *rig.Ctx, i int) Case {
 		for k := 0; k < 4+g.n(8); k++ {
 			h := g.hbp(25) // mostly failures, so that runs of failures get long enough
 			ops = append(ops, h)
+			// the partial failure: the server info stays reachable and keeps publishing the failing leader
+			maybe(45, func() { ops = append(ops, g.syncOp(cs.Shards)) })
 			maybe(15, func() { ops = append(ops, Op{Op: "shards", N: rig.Pick(g.c.Rng, []int{0, cs.Shards})}) })
 		}
 	}
@@ -341,6 +378,9 @@ func genCase(c *rig.Ctx, i int) Case {
 	if g.n(8) != 0 {
 		ops = append(ops, Op{Op: "shards", N: cs.Shards})
 	}
+	if g.n(4) == 0 {
+		ops = append(ops, g.syncOp(cs.Shards))
+	}
 	if g.n(6) != 0 {
 		h := g.hb()
 		h.OK, h.Other = true, false
@@ -390,6 +430,9 @@ func genCase(c *rig.Ctx, i int) Case {
 			} else {
 				ops = append(ops, Op{Op: "shards", N: cs.Shards})
 			}
+		}
+		if g.n(100) < 9 {
+			ops = append(ops, g.syncOp(cs.Shards))
 		}
 	}
 	cs.Ops = ops
